@@ -10,6 +10,9 @@ CONSTANTS
   ExtraSafe = {}
   ExtraFull = {}
   ExtraUnsafe = {}
+  Kinds = {"s", "q", "m"}
+  LeafKinds = {"s", "q", "m"}
+  KeyFillers = {"k", "M", "V"}
   MustChain = TRUE
   ConvFail = "err"
 INVARIANT UnsafeInert
